@@ -279,3 +279,126 @@ package originium
 //@ ensures (DbState[ref(db)] != 3 && FnErr != nil) ==> (err == FnErr && ViewHas == old(ViewHas) && ViewEnt == old(ViewEnt) && HistLen == old(HistLen))
 //@ ensures (DbState[ref(db)] != 3 && FnErr == nil && err == ErrConflictTxn) ==> (ViewHas == old(ViewHas) && ViewEnt == old(ViewEnt) && HistLen == old(HistLen))
 //@ after_call dyn:originium.TxnFunc#0: ghost FnErr = result
+//
+// ---------------------------------------------------------------------------------------------
+// C10 (C01, C09): the sstable side. Ghost model of the table files, keyed by file id fid(level, idx):
+//   TLen[f] / TEnt[f][p]   the entries of the table, in file order
+//   TNBlk[f], TBlk[f][j]   number of data blocks and the position of the first entry of block j
+//   TBlkOfOff[f][o]        the block that starts at byte offset o;  TData[f] byte length of the data area
+// handleOK ties a tableHandle (index + filter held in memory) to the file it describes.
+//@ smt (declare-fun fid (Int Int) Int)
+//@ smt (declare-fun fidL (Int) Int)
+//@ smt (declare-fun fidI (Int) Int)
+//@ smt (assert (forall ((l Int) (i Int)) (! (and (= (fidL (fid l i)) l) (= (fidI (fid l i)) i)) :pattern ((fid l i)))))
+//@ ghost TLen (Array Int Int)
+//@ ghost TEnt (Array Int (Array Int T(types.Entry)))
+//@ ghost TNBlk (Array Int Int)
+//@ ghost TBlk (Array Int (Array Int Int))
+//@ ghost TBlkOfOff (Array Int (Array Int Int))
+//@ ghost TData (Array Int Int)
+//@ ghost PrevTs Int
+//@ ghost TBlkOfPos (Array Int (Array Int Int))
+//@ ghost TEnd (Array Int (Array Int Int))
+//@ define tblOK(f) = TLen[f] > 0 && TNBlk[f] >= 1 && TBlk[f][0] == 0 && TBlk[f][TNBlk[f]] == TLen[f] && all(j, 0, TNBlk[f], 0 <= TBlk[f][j] && TBlk[f][j] < TBlk[f][j+1] && TBlk[f][j+1] <= TLen[f])
+//@ | && all(p, 0, TLen[f], wf(TEnt[f][p].Key)) && forall(Int(p), Int(q), (0 <= p && p < q && q < TLen[f]) ==> cmp(TEnt[f][p].Key, TEnt[f][q].Key) < 0)
+//@ | && forall(Int(j), Int(k), (0 <= j && j < k && k <= TNBlk[f]) ==> TBlk[f][j] < TBlk[f][k])
+//@ | && all(j, 0, TNBlk[f], TEnd[f][j] == TBlk[f][j+1] - 1, trig(TEnd[f][j]))
+//@ | && all(q, 0, TLen[f], 0 <= TBlkOfPos[f][q] && TBlkOfPos[f][q] < TNBlk[f] && TBlk[f][TBlkOfPos[f][q]] <= q && q < TBlk[f][TBlkOfPos[f][q] + 1])
+//@ define idxOK(f, ix) = len(ix.Entries) == TNBlk[f] && ix.DataBlock.Offset == 0 && ix.DataBlock.Length == TData[f]
+//@ | && all(j, 0, len(ix.Entries), ix.Entries[j].StartKey == TEnt[f][TBlk[f][j]].Key && ix.Entries[j].EndKey == TEnt[f][TEnd[f][j]].Key && TBlkOfOff[f][ix.Entries[j].DataHandle.Offset] == j && (TNBlk[f] > 1 ==> ix.Entries[j].DataHandle.Length < TData[f]))
+//@ define filtOK(f, flt) = len(flt.bitset) > 0 && hreset(flt) && all(p, 0, TLen[f], member(flt, uk(TEnt[f][p].Key)))
+//@ define handleOK(L, th) = tblOK(fid(L, th.levelIdx)) && idxOK(fid(L, th.levelIdx), th.dataBlockIndex) && filtOK(fid(L, th.levelIdx), th.filter)
+//@ define elAt(lm, L, p) = cast(P_list_Element, ListAt[ref(lm.levels[L])][p])
+//@ define thAt(lm, L, p) = unbox(tableHandle, elAt(lm, L, p).Value)
+//@ define fAt(lm, L, p) = fid(L, thAt(lm, L, p).levelIdx)
+//@ define lmOK(lm) = all(L, 0, len(lm.levels), listOK(lm.levels[L])) && forall(Int(L), Int(p), (0 <= L && L < len(lm.levels) && 0 <= p && p < ListLen[ref(lm.levels[L])]) ==> (tag(elAt(lm, L, p).Value) == tagof(tableHandle) && handleOK(L, thAt(lm, L, p))))
+//@ define matches(x, key) = uk(x.Key) == uk(key) && ts(x.Key) <= ts(key)
+//
+//@ func (*originium.levelManager).fetch -> r
+//@ props C10 C09
+//@ trusted reads a data block back from the table file: file system + s2 + block codec (C11 decides decode(encode(x)) = x); the ghost table model is what the file contains
+//@ requires 0 <= TBlkOfOff[fid(level, idx)][handle.Offset] && TBlkOfOff[fid(level, idx)][handle.Offset] < TNBlk[fid(level, idx)]
+//@ ensures arrid(r.Entries) >= old(alloc) && offof(r.Entries) == 0
+//@ ensures (handle.Offset == 0 && handle.Length == TData[fid(level, idx)]) ==> (len(r.Entries) == TLen[fid(level, idx)] && all(i, 0, TLen[fid(level, idx)], r.Entries[i] == TEnt[fid(level, idx)][i]))
+//@ ensures !(handle.Offset == 0 && handle.Length == TData[fid(level, idx)]) ==> (len(r.Entries) == TBlk[fid(level, idx)][TBlkOfOff[fid(level, idx)][handle.Offset] + 1] - TBlk[fid(level, idx)][TBlkOfOff[fid(level, idx)][handle.Offset]])
+//@ ensures !(handle.Offset == 0 && handle.Length == TData[fid(level, idx)]) ==> all(i, 0, len(r.Entries), r.Entries[i] == TEnt[fid(level, idx)][TBlk[fid(level, idx)][TBlkOfOff[fid(level, idx)][handle.Offset]] + i])
+//
+//@ ghost LastPos Int
+//@ define blkLo(f, o) = TBlk[f][TBlkOfOff[f][o]]
+//@ define blkHi(f, o) = TBlk[f][TBlkOfOff[f][o] + 1]
+//@ func (*originium.levelManager).fetchAndSearchLowerBound -> e, ok
+//@ props C10 C01
+//@ requires wf(key) && tblOK(fid(level, idx)) && 0 <= TBlkOfOff[fid(level, idx)][handle.Offset] && TBlkOfOff[fid(level, idx)][handle.Offset] < TNBlk[fid(level, idx)]
+//@ requires !(handle.Offset == 0 && handle.Length == TData[fid(level, idx)]) || TNBlk[fid(level, idx)] == 1
+//@ assigns LbIdx, LastPos
+//@ ensures ok ==> (blkLo(fid(level, idx), handle.Offset) <= LastPos && LastPos < blkHi(fid(level, idx), handle.Offset) && TEnt[fid(level, idx)][LastPos] == e && cmp(e.Key, key) >= 0 && all(r, blkLo(fid(level, idx), handle.Offset), LastPos, cmp(TEnt[fid(level, idx)][r].Key, key) < 0))
+//@ at_exit exit: ghost LastPos = blkLo(fid(level, idx), handle.Offset) + LbIdx
+//@ ensures !ok ==> all(q, blkLo(fid(level, idx), handle.Offset), blkHi(fid(level, idx), handle.Offset), cmp(TEnt[fid(level, idx)][q].Key, key) < 0)
+//
+// C10 top level: over all tables of all levels, the entry of the target user key with the largest
+// version not above the read timestamp, or not-found when no table holds one. Independent of how the
+// entries are distributed over tables, blocks and levels.
+//@ define accounted(lm, key, found, best, L, p) = forall(Int(q), (0 <= q && q < TLen[fAt(lm, L, p)] && matches(TEnt[fAt(lm, L, p)][q], key)) ==> (found && ts(TEnt[fAt(lm, L, p)][q].Key) <= ts(best.Key)), trig(TEnt[fAt(lm, L, p)][q]))
+//@ define fromTable(lm, x, L, p) = ex(q, 0, TLen[fAt(lm, L, p)], TEnt[fAt(lm, L, p)][q] == x)
+//@ define epos(e, l) = ite(e == nil, ListLen[ref(l)], ElIdx[ref(e)])
+//
+//@ func (*originium.levelManager).searchLowerBound -> e, ok
+//@ props C10 C01
+//@ requires wf(key) && lmOK(lm)
+//@ assigns HashBuf, LbIdx, LastPos, PrevTs
+//@ ensures HashBuf == old(HashBuf)
+//@ ensures ok ==> (wf(e.Key) && matches(e, key))
+//@ ensures ok ==> ex(L, 0, len(lm.levels), ex(p, 0, ListLen[ref(lm.levels[L])], fromTable(lm, e, L, p)))
+//@ ensures forall(Int(L), Int(p), (0 <= L && L < len(lm.levels) && 0 <= p && p < ListLen[ref(lm.levels[L])]) ==> accounted(lm, key, ok, e, L, p))
+// Lemmas of the table model (pure, over arbitrary model arrays): what the two-level search finds.
+// They are triggered only through the probe markers a contract plants with `mention`.
+//@ smt (declare-fun probeMiss (Int Str) Int)
+//@ smt (declare-fun probeHit (Int Str Int Int) Int)
+//@ define noMatchA(TLen, TEnt, f, key) = forall(Int(q), (0 <= q && q < TLen[f]) ==> !matches(TEnt[f][q], key), trig(TEnt[f][q]))
+//@ lemma tbl_below props C10 C01 C09: forall(sort("(Array Int Int)", TLen), sort("(Array Int (Array Int T(types.Entry)))", TEnt), sort("(Array Int Int)", TNBlk), sort("(Array Int (Array Int Int))", TBlk), sort("(Array Int (Array Int Int))", TBlkOfPos), sort("(Array Int (Array Int Int))", TEnd), Int(f), Str(key), Int(j),
+//@ | (tblOK(f) && wf(key) && 0 <= j && j <= TNBlk[f] && all(a, 0, j, cmp(TEnt[f][TEnd[f][a]].Key, key) < 0)) ==> all(q, 0, TBlk[f][j], cmp(TEnt[f][q].Key, key) < 0),
+//@ | trig(probeHit(f, key, j, 0), TLen[f], TEnt[f], TNBlk[f], TBlk[f], TBlkOfPos[f], TEnd[f]))
+//@ lemma tbl_miss props C10 C01 C09: forall(sort("(Array Int Int)", TLen), sort("(Array Int (Array Int T(types.Entry)))", TEnt), sort("(Array Int Int)", TNBlk), sort("(Array Int (Array Int Int))", TBlk), sort("(Array Int (Array Int Int))", TBlkOfPos), sort("(Array Int (Array Int Int))", TEnd), Int(f), Str(key),
+//@ | (tblOK(f) && wf(key) && all(q, 0, TLen[f], cmp(TEnt[f][q].Key, key) < 0)) ==> noMatchA(TLen, TEnt, f, key),
+//@ | trig(probeMiss(f, key), TLen[f], TEnt[f], TNBlk[f], TBlk[f], TBlkOfPos[f], TEnd[f]))
+//@ lemma tbl_hit_other props C10 C01 C09: forall(sort("(Array Int Int)", TLen), sort("(Array Int (Array Int T(types.Entry)))", TEnt), sort("(Array Int Int)", TNBlk), sort("(Array Int (Array Int Int))", TBlk), sort("(Array Int (Array Int Int))", TBlkOfPos), sort("(Array Int (Array Int Int))", TEnd), Int(f), Str(key), Int(q0),
+//@ | (tblOK(f) && wf(key) && 0 <= q0 && q0 < TLen[f] && cmp(TEnt[f][q0].Key, key) >= 0 && all(r, 0, q0, cmp(TEnt[f][r].Key, key) < 0) && uk(TEnt[f][q0].Key) != uk(key)) ==> noMatchA(TLen, TEnt, f, key),
+//@ | trig(probeHit(f, key, q0, 1), TLen[f], TEnt[f], TNBlk[f], TBlk[f], TBlkOfPos[f], TEnd[f]))
+//@ lemma tbl_hit_same props C10 C01 C09: forall(sort("(Array Int Int)", TLen), sort("(Array Int (Array Int T(types.Entry)))", TEnt), sort("(Array Int Int)", TNBlk), sort("(Array Int (Array Int Int))", TBlk), sort("(Array Int (Array Int Int))", TBlkOfPos), sort("(Array Int (Array Int Int))", TEnd), Int(f), Str(key), Int(q0),
+//@ | (tblOK(f) && wf(key) && 0 <= q0 && q0 < TLen[f] && cmp(TEnt[f][q0].Key, key) >= 0 && all(r, 0, q0, cmp(TEnt[f][r].Key, key) < 0) && uk(TEnt[f][q0].Key) == uk(key))
+//@ | ==> (ts(TEnt[f][q0].Key) <= ts(key) && forall(Int(q), (0 <= q && q < TLen[f] && matches(TEnt[f][q], key)) ==> ts(TEnt[f][q].Key) <= ts(TEnt[f][q0].Key), trig(TEnt[f][q]))),
+//@ | trig(probeHit(f, key, q0, 2), TLen[f], TEnt[f], TNBlk[f], TBlk[f], TBlkOfPos[f], TEnd[f]))
+//@ define noMatch(f, key) = forall(Int(q), (0 <= q && q < TLen[f]) ==> !matches(TEnt[f][q], key), trig(TEnt[f][q]))
+//@ before_call (*filter.Filter).Contains#0: assert tblOK(fid(level, th.levelIdx))
+//@ before_call (*filter.Filter).Contains#0: assert idxOK(fid(level, th.levelIdx), th.dataBlockIndex)
+//@ before_call (*filter.Filter).Contains#0: assert filtOK(fid(level, th.levelIdx), th.filter)
+//@ after_call (*filter.Filter).Contains#0: assert !result ==> noMatch(fid(level, th.levelIdx), key)
+//@ after_call (*table.Index).SearchLowerBound#0: apply tbl_below(fid(level, th.levelIdx), key, TNBlk[fid(level, th.levelIdx)])
+//@ after_call (*table.Index).SearchLowerBound#0: apply tbl_miss(fid(level, th.levelIdx), key)
+//@ after_call (*originium.levelManager).fetchAndSearchLowerBound#0: apply tbl_below(fid(level, th.levelIdx), key, TBlkOfOff[fid(level, th.levelIdx)][dataBlockHandle.Offset])
+//@ after_call (*originium.levelManager).fetchAndSearchLowerBound#0: apply tbl_hit_other(fid(level, th.levelIdx), key, LastPos)
+//@ after_call (*originium.levelManager).fetchAndSearchLowerBound#0: apply tbl_hit_same(fid(level, th.levelIdx), key, LastPos)
+//@ after_call (*table.Index).SearchLowerBound#0: assert !result1 ==> noMatch(fid(level, th.levelIdx), key)
+//@ after_call (*originium.levelManager).fetchAndSearchLowerBound#0: assert !result1 ==> noMatch(fid(level, th.levelIdx), key)
+//@ after_call (*originium.levelManager).fetchAndSearchLowerBound#0: assert (result1 && uk(result0.Key) != uk(key)) ==> noMatch(fid(level, th.levelIdx), key)
+//@ after_call (*originium.levelManager).fetchAndSearchLowerBound#0: assert (result1 && uk(result0.Key) == uk(key)) ==> (ts(result0.Key) <= ts(key) && forall(Int(q), (0 <= q && q < TLen[fid(level, th.levelIdx)] && matches(TEnt[fid(level, th.levelIdx)][q], key)) ==> ts(TEnt[fid(level, th.levelIdx)][q].Key) <= ts(result0.Key), trig(TEnt[fid(level, th.levelIdx)][q])))
+//@ before_call types.ParseKey#0: ghost PrevTs = ite(found, ts(best.Key), -1)
+//@ before_call (*list.Element).Next#0: assert found ==> (wf(best.Key) && matches(best, key))
+//@ before_call (*list.Element).Next#0: assert (PrevTs >= 0 ==> found) && (found ==> ts(best.Key) >= PrevTs)
+//@ before_call (*list.Element).Next#0: assert accounted(lm, key, found, best, level, ElIdx[ref(e)])
+//@ before_call (*list.Element).Next#0: assert all(p, 0, ElIdx[ref(e)], accounted(lm, key, found, best, level, p))
+//@ before_call (*list.Element).Next#0: assert forall(Int(L), Int(p), (0 <= L && L < level && 0 <= p && p < ListLen[ref(lm.levels[L])]) ==> accounted(lm, key, found, best, L, p))
+//@ before_call (*list.Element).Next#0: assert all(p, 0, ElIdx[ref(e)] + 1, accounted(lm, key, found, best, level, p))
+//@ before_call (*list.Element).Next#0: assert found ==> (ex(L, 0, level, ex(p, 0, ListLen[ref(lm.levels[L])], fromTable(lm, best, L, p))) || ex(p, 0, ElIdx[ref(e)] + 1, fromTable(lm, best, level, p)))
+//@ after_call (*list.Element).Next#0: assert epos(result, tables) <= ElIdx[ref(e)] + 1 && (result != nil ==> inList(result, tables))
+//@ loop 0:
+//@   invariant HashBuf == old(HashBuf)
+//@   invariant found ==> (wf(best.Key) && matches(best, key) && ex(L, 0, rangeindex+1, ex(p, 0, ListLen[ref(lm.levels[L])], fromTable(lm, best, L, p))))
+//@   invariant forall(Int(L), Int(p), (0 <= L && L < rangeindex+1 && 0 <= p && p < ListLen[ref(lm.levels[L])]) ==> accounted(lm, key, found, best, L, p))
+//@ loop 1:
+//@   invariant HashBuf == old(HashBuf)
+//@   invariant 0 <= level && level < len(lm.levels) && level == rangeindex && tables == lm.levels[level] && (e != nil ==> inList(e, tables))
+//@   invariant found ==> (wf(best.Key) && matches(best, key))
+//@   invariant found ==> (ex(L, 0, level, ex(p, 0, ListLen[ref(lm.levels[L])], fromTable(lm, best, L, p))) || ex(p, 0, epos(e, tables), fromTable(lm, best, level, p)))
+//@   invariant forall(Int(L), Int(p), (0 <= L && L < level && 0 <= p && p < ListLen[ref(lm.levels[L])]) ==> accounted(lm, key, found, best, L, p))
+//@   invariant all(p, 0, epos(e, tables), accounted(lm, key, found, best, level, p))
